@@ -95,12 +95,19 @@ TExec ==
 CallOf(t) ==
     [NewCall(t.who, t.api) EXCEPT !.id = t.id, !.body = t.body, !.big = t.big, !.et = t.et, !.name = t.name,
                                   !.events = SetOf(t.events), !.idc = t.idc, !.agen = t.agen, !.which = t.which,
-                                  !.feat = t.feat]
+                                  !.feat = t.feat, !.slow = t.slow]
 
 TCall ==
     /\ Is("Call")
     /\ T.cid \notin DOMAIN st.calls
     /\ st' = IssueDo(st, T.cid, CallOf(T))
+    /\ UNCHANGED tp /\ Adv
+
+\* the rest of a slowly sent request body has arrived
+TBodyDone ==
+    /\ Is("BodyDone")
+    /\ BodyDoneEn(st, T.cid)
+    /\ st' = BodyDoneDo(st, T.cid)
     /\ UNCHANGED tp /\ Adv
 
 ResMatches(r, t) ==
@@ -256,7 +263,7 @@ THook ==
 Observable ==
     \/ THook \/ TObs
     \/ TRestoreCall \/ TRestoreRet
-    \/ TBegin \/ TInitCall \/ TExec \/ TCall \/ TRet \/ TInvokeCall \/ TInvokeRet
+    \/ TBegin \/ TInitCall \/ TExec \/ TCall \/ TBodyDone \/ TRet \/ TInvokeCall \/ TInvokeRet
     \/ TProcExit \/ TExitSend \/ TExitDelivered \/ TTerminate \/ TKillCall \/ TTel
     \/ TResetCall \/ TResetRet \/ TShutdownCall \/ TShutdownRet
 
